@@ -156,48 +156,64 @@ def run(ctx) -> None:
                   f"{part} -> {z!r} (field {fld})", loc="src/bumpver/version.py", witness={"pattern": f"YYYY.MM[.{part}]", "value": z})
     from checks.c02 import omission_rule
     omission_rule(ctx, "R3")
-    it = prog.function("v2version._iter_reset_field_items")
+    # the reset loop: "any field to the left of another can reset all to the right".  It lives in _iter_reset_field_items
+    # (a generator) in the pinned tree; merged into _reset_rollover_fields it fills a dict instead - located by role
+    rr = prog.function("v2version._reset_rollover_fields")
+    ctx.visit(rr.fq)
+    it = prog.function("v2version._iter_reset_field_items") if prog.has_function("v2version._iter_reset_field_items") else rr
     ctx.visit(it.fq)
     icfg = cfgs.get(it.fq)
     ipc = PathCond(icfg)
-    ys = [n for n in ast.walk(it.node) if isinstance(n, ast.Yield)]
-    ctx.require(len(ys) == 1, "_iter_reset_field_items: expected one yield")
-    loops = [n for n in walk_no_nested(it.node) if isinstance(n, ast.For)]
-    ctx.check("R3", len(loops) == 1 and unparse(loops[0].iter) == it.params[0], f"_iter_reset_field_items walks `{it.params[0]}` in order",
-              "v2version._iter_reset_field_items: fields are not visited in pattern order", "", loc=it.loc())
-    ycond = ipc.reach(icfg.node_containing(ys[0])).drop_unused()
+    loops = [n for n in walk_no_nested(it.node) if isinstance(n, ast.For) and isinstance(n.target, ast.Name)
+             and any(isinstance(c_, ast.Call) and unparse(c_.func).endswith("V2_FIELD_INITIAL_VALUES.get") and c_.args and unparse(c_.args[0]) == n.target.id for c_ in ast.walk(n))]
+    ctx.require(len(loops) == 1, f"{it.fq}: the loop that looks up V2_FIELD_INITIAL_VALUES per field was not found")
+    loop = loops[0]
+    fvar = loop.target.id
+    # emission: `yield field, value`  or  `<dict>[field] = value`
+    emits: T.List[T.Tuple[ast.AST, ast.AST, ast.AST]] = []        # (node for the CFG, key expr, value expr)
+    for n in ast.walk(loop):
+        if isinstance(n, ast.Yield) and isinstance(n.value, ast.Tuple) and len(n.value.elts) == 2:
+            emits.append((n, n.value.elts[0], n.value.elts[1]))
+        elif isinstance(n, ast.Assign) and isinstance(n.targets[0], ast.Subscript) and unparse(n.targets[0].slice) == fvar:
+            emits.append((n.value, n.targets[0].slice, n.value))
+    ctx.require(len(emits) == 1, f"{it.fq}: expected one emission of a (field, initial value) pair in the reset loop, found {len(emits)}")
+    e_node, e_key, e_val = emits[0]
+    fields_src = unparse(shapes.inline(it, loop.iter, prog, consts=False))
+    in_order = (it is not rr and unparse(loop.iter) == it.params[0]) or (it is rr and fields_src in ("_parse_pattern_fields(raw_pattern)", f"_parse_pattern_fields({rr.params[0]})"))
+    ctx.check("R3", in_order, f"{it.name} walks the pattern's fields in order",
+              f"v2version.{it.name}: fields are not visited in pattern order", fields_src, loc=it.loc(loop))
+    ycond = ipc.reach(icfg.node_containing(e_node)).drop_unused()
     none_atoms = [a for a in ycond.atoms if a.endswith("is None")]
     ok = "has_reset" in ycond.atoms and len(none_atoms) == 1 and ycond.equiv(BF.var("has_reset") & ~BF.var(none_atoms[0]))
-    ctx.check("R3", ok, f"_iter_reset_field_items: a field is reset iff something to its left changed and it has an initial value  [{ycond.to_dnf()}]",
-              "v2version._iter_reset_field_items: reset condition changed", f"yield when {ycond.to_dnf()}", loc=it.loc(ys[0]))
-    yv = ys[0].value
-    ok = isinstance(yv, ast.Tuple) and len(yv.elts) == 2 and unparse(yv.elts[0]) == unparse(loops[0].target) and \
-        shapes.flows_from(it, yv.elts[1], lambda e: isinstance(e, ast.Call) and unparse(e.func).endswith("V2_FIELD_INITIAL_VALUES.get"))
-    ctx.check("R3", ok, "_iter_reset_field_items yields (field, V2_FIELD_INITIAL_VALUES.get(field))", "v2version._iter_reset_field_items: yields something else than the initial value",
-              unparse(yv), loc=it.loc(ys[0]))
+    ctx.check("R3", ok, f"{it.name}: a field is reset iff something to its left changed and it has an initial value  [{ycond.to_dnf()}]",
+              f"v2version.{it.name}: reset condition changed", f"emitted when {ycond.to_dnf()}", loc=it.loc(e_node))
+    ok = unparse(e_key) == fvar and shapes.flows_from(it, e_val, lambda e: isinstance(e, ast.Call) and unparse(e.func).endswith("V2_FIELD_INITIAL_VALUES.get"))
+    ctx.check("R3", ok, f"{it.name} emits (field, V2_FIELD_INITIAL_VALUES.get(field))", f"v2version.{it.name}: emits something else than the initial value",
+              f"{unparse(e_key)} -> {unparse(e_val)}", loc=it.loc(e_node))
     sets = [n for n in icfg.nodes if n.kind == "stmt" and isinstance(n.ast, ast.Assign) and unparse(n.ast.targets[0]) == "has_reset"
             and isinstance(n.ast.value, ast.Constant) and n.ast.value.value is True]
-    ctx.require(len(sets) == 1, "_iter_reset_field_items: `has_reset = True` not found")
+    ctx.require(len(sets) == 1, f"{it.name}: `has_reset = True` not found")
     scond = ipc.reach(sets[0].id).drop_unused()
     chg = [a for a in scond.atoms if "getattr" in a]
     ok = len(chg) == 1
     if ok:
         tree = ast.parse(chg[0], mode="eval").body
         cs = shapes.compare_shape(tree)
-        ok = cs is not None and cs[0] == "==" and {unparse(cs[1]), unparse(cs[2])} == {f"getattr({it.params[1]}, field)", f"getattr({it.params[2]}, field)"}
-        ok = ok and (~BF.var(chg[0]) & ~BF.var("has_reset")).implies(scond) and scond.implies(~BF.var(chg[0]))
-    ctx.check("R3", ok, "_iter_reset_field_items: has_reset is set when a field differs between old and current version",
-              "v2version._iter_reset_field_items: change detection altered", f"set when {scond.to_dnf()}", loc=it.loc(sets[0].ast))
-    rr = prog.function("v2version._reset_rollover_fields")
-    ctx.visit(rr.fq)
+        old_p, cur_p = (it.params[1], it.params[2]) if it is not rr else (rr.params[1], rr.params[2])
+        ok = cs is not None and cs[0] == "==" and {unparse(cs[1]), unparse(cs[2])} == {f"getattr({old_p}, {fvar})", f"getattr({cur_p}, {fvar})"}
+        ok = ok and (~BF.var(chg[0]) & ~BF.var("has_reset")).implies(scond.project([chg[0], "has_reset"])) and scond.implies(~BF.var(chg[0]))
+    ctx.check("R3", ok, f"{it.name}: has_reset is set when a field differs between old and current version",
+              f"v2version.{it.name}: change detection altered", f"set when {scond.to_dnf()}", loc=it.loc(sets[0].ast))
     stores = [n for n in ast.walk(rr.node) if isinstance(n, ast.Assign) and isinstance(n.targets[0], ast.Subscript) and unparse(n.targets[0]) == "cur_kwargs[field]"]
     gen_loop = [n for n in walk_no_nested(rr.node) if isinstance(n, ast.For) and unparse(n.iter) == "reset_fields.items()"]
     ctx.check("R3", len(stores) >= 1 and len(gen_loop) == 1, "_reset_rollover_fields applies every (field, value) of the reset items generically",
               "v2version._reset_rollover_fields: reset items are not applied generically", "", loc=rr.loc())
-    rf = shapes.single_def(rr, "reset_fields")
-    ok = rf is not None and "_iter_reset_field_items(fields, old_vinfo, cur_vinfo)" in unparse(rf)
-    ctx.check("R3", ok, "_reset_rollover_fields: reset items computed from (fields, old_vinfo, cur_vinfo)", "v2version._reset_rollover_fields: reset items computed from other arguments",
-              unparse(rf) if rf is not None else "", loc=rr.loc())
+    if it is not rr:
+        rf = shapes.single_def(rr, "reset_fields")
+        ok = rf is not None and any(isinstance(c_, ast.Call) and unparse(c_.func) == "_iter_reset_field_items" and [unparse(a_) for a_ in c_.args] == ["fields", rr.params[1], rr.params[2]]
+                                    for c_ in ast.walk(rf))
+        ctx.check("R3", ok, "_reset_rollover_fields: reset items computed from (fields, old_vinfo, cur_vinfo)", "v2version._reset_rollover_fields: reset items computed from other arguments",
+                  unparse(rf) if rf is not None else "", loc=rr.loc())
     fd = shapes.single_def(rr, "fields")
     ctx.check("R3", fd is not None and unparse(fd) == "_parse_pattern_fields(raw_pattern)", "_reset_rollover_fields: field order from _parse_pattern_fields(raw_pattern)",
               "v2version._reset_rollover_fields: field order not taken from the pattern", "", loc=rr.loc())
